@@ -1,13 +1,14 @@
 SPECIFICATION Spec
 CONSTANTS
   AliasKeys = FALSE
+  ArrayOneWay = FALSE
   NsU = {1, 3}
   ClsU = {"A", "B", "Z"}
   KeyU = {1, 2}
   ValS = {"unset", "null", "v1"}
   ValT = {"unset"}
   ValU = {"unset", "v1"}
-  BadU = {"none", "wrongtype", "wrongnull"}
+  BadU = {"none", "s_uint8_sc_null", "u_string_sc_val"}
   GenDepth = 0
 INVARIANT ImplRefinesReq
 INVARIANT ReqWellFormed
